@@ -169,14 +169,14 @@ func main() {
 		}
 		// vacuity: requires satisfiable (cover) and a canary 'false' at every return must be refuted
 		if sp != nil {
-			jobs = append(jobs, &job{vc: vc, o: &Obl{Name: "cover/requires", blk: 0, idx: 0, Guard: "true", Cond: "true"}, seq: 900, neg: false, tag: "cover"})
+			jobs = append(jobs, &job{vc: vc, o: &Obl{Name: "cover/requires", blk: 0, idx: vc.entrySeq, Guard: "true", Cond: "true"}, seq: 900, neg: false, tag: "cover"})
 			for _, b := range fn.Blocks {
 				if len(b.Instrs) == 0 {
 					continue
 				}
 				if _, ok := b.Instrs[len(b.Instrs)-1].(*ssa.Return); ok {
 					if p, ok := vc.rpoPos[b.Index]; ok {
-						jobs = append(jobs, &job{vc: vc, o: &Obl{Name: "canary/return", blk: p, idx: len(b.Instrs) - 1, Guard: vc.reach[p], Cond: "false"}, seq: 901 + b.Index, neg: true, tag: "canary"})
+						jobs = append(jobs, &job{vc: vc, o: &Obl{Name: "canary/return", blk: p, idx: 1 << 40, Guard: vc.reach[p], Cond: "false"}, seq: 901 + b.Index, neg: true, tag: "canary"})
 					}
 				}
 			}
